@@ -255,7 +255,8 @@ func (r *Result) Human() map[string]interface{} {
 	}
 	return map[string]interface{}{
 		"router": c.Router, "route": "GET /w/x, handler calls resp.WriteEntity(value)", "produces": c.Produces,
-		"registered_writers": Registry, "DefaultResponseContentType": c.Default, "handler_calls_PrettyPrint(false)": c.Compact,
+		"registered_writers": append([]string{}, Registry...), "DefaultResponseContentType": c.Default, "handler_calls_PrettyPrint(false)": c.Compact,
+		"content_type_already_on_the_response_when_the_entity_is_written": map[bool]interface{}{true: nil, false: map[string]string{"value": c.Preset, "set_by": c.PresetBy}}[c.Preset == ""],
 		"accept": acc, "accept_second_spelling": c.Variant(), "dispatches_each": Dispatches,
 		"real": obsString(r.Real), "real_second_spelling": obsString(r.RealV),
 		"model": modelString(r.Model), "model_second_spelling": modelString(r.ModelV), "demanded_by_spec": r.Best,
@@ -304,6 +305,15 @@ func candidates(c Case) (out []Case) {
 	}
 	if c.Default != "" {
 		add(func(d *Case) { d.Default = "" })
+	}
+	if c.Preset != "" {
+		add(func(d *Case) { d.Preset, d.PresetBy = "", "" })
+		if c.PresetBy != "handler-Header().Set" {
+			add(func(d *Case) { d.PresetBy = "handler-Header().Set" })
+		}
+	}
+	if c.Compact {
+		add(func(d *Case) { d.Compact = false })
 	}
 	if c.Router != "curly" {
 		add(func(d *Case) { d.Router = "curly" })
@@ -448,11 +458,15 @@ type ReplayFile struct {
 	} `json:"violation"`
 }
 
+// RecordedRegistry is the registry replays/F07.json was recorded with (Lean: Mime.harnessReg); the
+// recorded lines keep naming it whatever else the stream registers today, in whatever order.
+var RecordedRegistry = []string{restful.MIME_JSON, restful.MIME_XML, VndJSON, CSV, VndXML, AppX}
+
 // RegressionLines: for every regression the line with the answers demanded today and the line
 // with the answers recorded before the repair, and the spec bit each must get.
 func RegressionLines() (lines []string, expect []int) {
 	for i, g := range Regressions() {
-		lines = append(lines, g.Case.Line(2*i, rep(g.Now), rep(g.Now)), g.Case.Line(2*i+1, rep(g.Before), rep(g.Before)))
+		lines = append(lines, g.Case.LineReg(2*i, rep(g.Now), rep(g.Now), RecordedRegistry), g.Case.LineReg(2*i+1, rep(g.Before), rep(g.Before), RecordedRegistry))
 		expect = append(expect, 1, 0)
 	}
 	return lines, expect
@@ -619,6 +633,12 @@ func Check(run *report.Run, n int) error {
 	// remembers a miss would answer differently from a fresh process; the model is told the registry
 	// of the moment)
 	base := rng.New(run.Seed*1000003 + 5)
+	// the order in which the custom writers get registered varies with the seed (names that contain
+	// other registered names meet both relative orders); seed 1 keeps the declaration order
+	if run.Seed != 1 {
+		SetOrder(rng.New(run.Seed*7919 + 55).Perm(len(customs)))
+	}
+	run.Extra["custom_writers_in_registration_order"] = SetOrder(nil)
 	reported := map[string]int{}
 	formerF07, formerF07Sharp := 0, 0
 	const batch = 5000
@@ -653,6 +673,18 @@ func Check(run *report.Run, n int) error {
 				run.Count("branch:" + r.Tag)
 				run.Count("default:" + map[bool]string{true: "unset", false: r.Case.Default}[r.Case.Default == ""])
 				run.Count("router:" + r.Case.Router)
+				if r.Case.Preset != "" {
+					run.Count("content-type-preset-by:" + r.Case.PresetBy)
+				} else {
+					run.Count("content-type-preset-by:nobody")
+				}
+				for _, p := range r.Case.Produces {
+					for _, k := range Registry {
+						if k != p && strings.Contains(p, k) {
+							run.Count("produces:a-type-whose-name-contains-another-registered-name")
+						}
+					}
+				}
 				switch {
 				case r.Case.Absent:
 					run.Count("accept:absent")
